@@ -38,6 +38,7 @@ def replay(ctx, cx, h=None):
     kind = c.get('kind') or ('kernel' if 'cx_mode' in c else 'msg')
     if kind == 'kernel': return replay_kernel(ctx, c, h)
     if kind == 'hdr': return replay_hdr(ctx, c, h)
+    if kind == 'data' or 'cx_data' in c: return replay_data(ctx, c, h)
     return replay_msg(ctx, c, h)
 
 def replay_kernel(ctx, c, h):
@@ -63,6 +64,22 @@ def replay_kernel(ctx, c, h):
     return hit, what
 
 def replay_hdr(ctx, c, h): return False, 'not implemented'
+
+def replay_data(ctx, c, h):
+    """C06 counterexample: the same Length/data pair through the real Message::factory (checksum verification off)"""
+    n = int(c.get('cx_n', 0)); data = bytes(int(v) & 255 for v in (c.get('cx_data') or [])[:n]); place = int(c.get('cx_place', 1))
+    lt, dt = ((90, 91), (95, 96), (93, 89))[place]
+    pair = b'%d=%d\x01%d=' % (lt, n, dt) + data + b'\x01'
+    msg = (b'8=FIX.4.2\x019=12\x0135=A\x0149=a\x0156=b\x0134=1\x0152=20130304-02:44:30\x01' + (pair if place == 0 else b'') + b'98=0\x01108=3\x01' + (pair if place == 1 else b'') +
+           b'141=Y\x01' + (pair if place == 2 else b'') + b'10=000\x01')
+    rc, out = run_replay(ctx, 'factory', msg.hex(), 1, 0, 0)
+    res, fields, unk, enc = parse_dump(out); shown = msg.replace(b'\x01', b'|')
+    if sanitizer_hit(rc, out): return True, 'sanitizer report on %r: %s' % (shown, _short(out))
+    if not (res or '').startswith('RESULT accepted'): return True, 'well-formed Length/data pair rejected: %r -> %s' % (shown, res)
+    got = [v for cmp_, t, v in fields if t == dt]
+    if got != [data]: return True, 'data field does not carry the %d bytes %r: decoded %r from %r' % (n, data, got, shown)
+    if not any(t == 141 and v == b'Y' for cmp_, t, v in fields): return True, 'field after the data pair lost: %r -> %s' % (shown, fields)
+    return False, 'native run decodes the pair correctly: %r' % shown
 
 # ---- reference acceptor (Python twin of the harness oracle) used to judge native replays of whole messages
 import re as _re
@@ -162,13 +179,31 @@ def replay_msg(ctx, c, h):
         if gv != wv: return True, 'accepted but string values differ from their text: %r -> %s' % (shown, gv)
     return False, 'native run agrees with the reference acceptor (%s): %r' % (res, shown)
 
-def replay_perm(ctx, c, msg, shown, accepted, fields, unk, enc, res): return False, 'not implemented'
+def replay_perm(ctx, c, msg, shown, accepted, fields, unk, enc, res):
+    """permissive mode: premise = the message without its unknown-tag tokens conforms; then it must be accepted, the known fields must be
+    those tokens, and the re-encoding must contain every unknown token's bytes exactly once"""
+    T = tables(); known = set(r[0] for k in ('hdr', 'body', 'trl') for r in T[k])
+    toks = tokenize(msg); ut = [(t, v) for t, v in toks[3:-1] if t not in known]
+    kmsg = b''.join(b'%d=%s\x01' % (t, v) for t, v in toks if (t, v) not in ut)
+    conform, exp = reference(kmsg, 1)
+    cs_ok = int(toks[-1][1]) == sum(msg[:-7]) & 255 if toks[-1][1].isdigit() else False
+    if not conform: return False, 'premise not met (known tokens do not conform): %r' % shown
+    if not accepted:
+        if int(c.get('cx_nochk', 0)) or cs_ok: return True, 'permissive mode rejects a message whose only deviation is unknown tags: %r -> %s' % (shown, res)
+        return False, 'rejected for its checksum: %r' % shown
+    got = sorted((cmp_, t) for cmp_, t, v in fields if t not in (8, 9, 35, 10)); want = sorted((cmp_, t) for cmp_, t, v in exp)
+    if got != want: return True, 'permissive mode loses or invents known fields: %r -> decoded %s' % (shown, got)
+    bad = [(t, v, enc.count(b'%d=%s\x01' % (t, v))) for t, v in ut if enc is None or enc.count(b'%d=%s\x01' % (t, v)) != 1]
+    extra = enc is not None and len(enc) - len(msg) - (len(b'%d' % (len(enc) - 20 - 7)) - 2) if enc else 0
+    if bad or (enc is not None and sum(len(u) for u in unk.values()) != sum(len(b'%d=%s\x01' % (t, v)) for t, v in ut)):
+        return True, 'pass-through not byte-for-byte once: %r re-encodes to %r (unknown strings %s)' % (shown, (enc or b'').replace(b'\x01', b'|').decode('latin1'), {k: v.replace(b'\x01', b'|').decode('latin1') for k, v in unk.items()})
+    return False, 'native run agrees (permissive): %r' % shown
 def add_c03_objects(ctx, defs): pass
 
 # ------------------------------------------------------------------ the token-level decoder world
-WORLD_ROOTS = ['vf_ctx_setup', 'vf_ctx_mk_hdr', 'vf_ctx_mk_trl', 'vf_tab_hdr', 'vf_tab_body', 'vf_tab_grp', 'vf_tab_trl', 'vf_mk_header', 'vf_mk_trailer',
+WORLD_ROOTS = ['vf_ctx_setup', 'vf_msg_entry_fn', 'vf_ctx_mk_hdr', 'vf_ctx_mk_trl', 'vf_tab_hdr', 'vf_tab_body', 'vf_tab_grp', 'vf_tab_trl', 'vf_mk_header', 'vf_mk_trailer',
                'vf_mk_body', 'vf_mk_element', 'vf_mk_group', 'vf_factory', 'vf_extract_header', 'vf_extract_trailer', 'vf_extract_element_s', 'vf_mb_decode',
-               'vf_unknown_data', 'vf_unknown_size', 'vf_field_int', 'vf_body_length', 'vf_msg_type', 'vf_check_sum', 'vf_ti']
+               'vf_unknown_data', 'vf_unknown_size', 'vf_field_int', 'vf_body_length', 'vf_msg_type', 'vf_check_sum', 'vf_ti', 'vf_encode', 'vf_fmt_chksum']
 FLD = 12          # scaled FIX8_MAX_FLD_LENGTH of the decoder world (tags <= 5 digits, values <= 7 bytes)
 M_DECODE = '_ZN4FIX811MessageBase6decodeERKNSt7__cxx1112basic_stringIcSt11char_traitsIcESaIcEEEjjb'
 M_DGROUP = '_ZN4FIX811MessageBase12decode_groupEPNS_9GroupBaseEtRKNSt7__cxx1112basic_stringIcSt11char_traitsIcESaIcEEEjj'
@@ -201,6 +236,7 @@ def world(ctx):
     tk = dict(common, stubfiles=['codec_world.stubs', 'codec_tok.stubs', 'common.stubs'])
     info['world_tk.c'] = ctx.translate(ll, WORLD_ROOTS, 'world_tk.c', **tk)
     info['world_tkng.c'] = ctx.translate(ll, WORLD_ROOTS, 'world_tkng.c', stubs={M_DGROUP: 'st_no_group'}, **tk)
+    info['world_enc.c'] = ctx.translate(ll, WORLD_ROOTS, 'world_enc.c', stubs={'_ZNK4FIX811MessageBase6encodeEPc': 'st_mb_encode'}, **common)
     tabcheck(ctx)
     ctx._codec_world = info
     return info
@@ -213,10 +249,10 @@ def tabcheck(ctx):
     if r.returncode != 0: raise Broken('codec_tables.h differs from the generated FIX42UTEST tables: ' + r.stdout[-400:])
     ctx.validation.append(dict(kernels=['codec_tables.h vs FIX42UTEST (header, Logon, Logon::NoMsgTypes, trailer, field table size)'], result=r.stdout.strip()))
 
-def us_decode(ntok, harness_loops=('main', 'run'), extra=()):
+def us_decode(ntok, harness_loops=('main', 'run'), extra=(), maxcopy=None):
     """per-loop unwinding bounds of the decoder world (names from cbmc --show-loops); global --unwind covers the small harness loops"""
     us = ['%s.%d:%d' % (f, i, 170) for f in harness_loops for i in range(0, 14)]
-    us += ['_ZNK4FIX811FieldTraits12find_missingENS_10FieldTrait10TraitTypesE.0:29', 'in_tab.0:29', 'vf_ti_match.0:60', 'vf_copy.0:%d' % (FLD + 2), 'x_strlen.0:64',
+    us += ['_ZNK4FIX811FieldTraits12find_missingENS_10FieldTrait10TraitTypesE.0:29', 'in_tab.0:29', 'vf_ti_match.0:60', 'vf_copy.0:%d' % ((maxcopy or FLD) + 2), 'x_strlen.0:64',
            M_DECODE + '.0:3', M_DECODE + '.1:%d' % (ntok + 2), M_DECODE + '.2:%d' % (ntok + 2),
            '_ZN4FIX811MessageBase27extract_element_fixed_widthEPKcjjPcS3_.0:%d' % FLD, '_ZN4FIX811MessageBase15extract_elementEPKcjPcS3_.0:%d' % (FLD + 1),
            'TK_render.0:%d' % (ntok + 3), 'TK_render.1:%d' % (ntok + 3), 'st_extract_element.0:%d' % (ntok + 3), 'st_extract_element.1:%d' % (ntok + 3), 'st_extract_element.2:%d' % (ntok + 3),
@@ -224,12 +260,13 @@ def us_decode(ntok, harness_loops=('main', 'run'), extra=()):
     us += ['%s.%d:29' % (M_FILL, i) for i in range(4)] + ['%s.%d:6' % (M_DGROUP, i) for i in range(6)]
     return us + list(extra)
 
-def tok_harness(ctx, name, *, perm=0, nx=3, pres=0, drop=0, ng=0, gpres=0, defs=(), tokcut=True, tier='quick', extra_defs=(), timeout=900, cfile='C04_tok.c', pid='C04'):
+def tok_harness(ctx, name, *, perm=0, nx=3, pres=0, drop=0, ng=0, gpres=0, defs=(), tokcut=True, tier='quick', extra_defs=(), timeout=900, cfile='C04_tok.c', pid='C04', object_bits=None):
     """one query of the token-level driver (harness/C04_tok.c)"""
     world(ctx)
     nslots = bin(pres).count('1') + bin(gpres).count('1')
     ntok = 3 + 6 + nx + ng + 1
-    d = list(defs) + ['NX=%d' % nx, 'PRES=%d' % pres, 'DROP=%d' % drop, 'PERM=%d' % perm, 'VF_MAXCOPY=%d' % FLD] + list(extra_defs)
+    mc = next((int(x.split('=')[1]) for x in extra_defs if x.startswith('VF_MAXCOPY=')), FLD)
+    d = list(defs) + ['NX=%d' % nx, 'PRES=%d' % pres, 'DROP=%d' % drop, 'PERM=%d' % perm] + ([] if mc != FLD else ['VF_MAXCOPY=%d' % FLD]) + list(extra_defs)
     if ng: d += ['NG=%d' % ng, 'GPRES=%d' % gpres]
     else: d += ['NOGROUP']
     if not tokcut: d += ['NO_TOKCUT']
@@ -241,7 +278,7 @@ def tok_harness(ctx, name, *, perm=0, nx=3, pres=0, drop=0, ng=0, gpres=0, defs=
               'tag outside the field table, two tags == known tag mod 65536, repeat of 35%s), 2..6 symbolic value bytes (no SOH/NUL); checksum digits, byte sum and no_chksum flag symbolic; '
               'FIX8_MAX_FLD_LENGTH scaled to %d') % (slots[0], slots[1], ' '.join(slots[2:]), ' with mandatory token #%d left out' % drop if drop else '', nslots,
                                                    '; group slots: 372, 385, 383, 141, 5000; count 0..%d' % ng if ng else '', FLD)
-    h = Harness(name, VERIF + '/harness/' + cfile, defines=d, unwind=14, unwindset=us_decode(ntok), timeout=timeout, mem_gb=12, flags=['-I', VERIF + '/shims'],
+    h = Harness(name, VERIF + '/harness/' + cfile, defines=d, unwind=14, unwindset=us_decode(ntok, maxcopy=mc), timeout=timeout, mem_gb=12, flags=['-I', VERIF + '/shims'], object_bits=object_bits or (16 if nslots > 1 else 13),
                 functions=FUN_DECODE + ([] if tokcut else ['FIX8::MessageBase::extract_element']), stubs=STUBS_DECODE + ([STUB_TOK] if tokcut else []) + ([] if ng else [STUB_NOGRP]),
                 bounds=bounds, desc='%s mode; oracle = reference acceptor over the token list and the FIX42UTEST trait tables' % ('permissive' if perm else 'strict'), tier=tier)
     return ctx.add(h)
@@ -251,3 +288,7 @@ DECODE_ASSUMPTIONS = ['trait/field/message tables: hand copy of FIX42UTEST heade
                       'the token oracle cut of extract_element is the contract proved by the C03_ext_* harnesses (inputs <= 40 bytes)',
                       'field objects are not built: the creator hook logs the text it receives (per-type parsing is C01/C08/C09); std::map insertion of fields is not executed',
                       'operator new never fails']
+
+def kf_defines_for(ctx, pid):
+    """defines of another property's known findings (a harness shared between properties must exclude those classes too)"""
+    return kf_defines(kfs(pid))
